@@ -158,6 +158,10 @@ class G:
                     s = self.fresh()
                     B.append(f"{s} = sum({v})")
                     self.env[s] = "SecretInteger"
+                elif t == "PublicInteger" and r.random() < 0.5 and not self.common:
+                    # sum over a public list: whatever the checker says about it must match what happens at run time
+                    s = self.fresh()
+                    B.append(f"{s} = sum({v})")
             elif k < 0.7:
                 t = r.choice(["SecretInteger", "int"])
                 iv = self.fresh("j")
@@ -177,8 +181,12 @@ class G:
                 B.append(f"{v} = [{e}, {self.expr('int')}]")
                 self.env[v] = "list[int]"
             elif k < 0.9 and literals:
-                B.append(f"{v} = Integer({r.choice([0, 1, 5])})")
-                self.env[v] = "Integer"
+                if r.random() < 0.25 and not self.common:
+                    # the typed constructors applied to plain integers (only Integer takes one)
+                    B.append(f"{v} = {r.choice(['PublicInteger', 'SecretInteger'])}({r.choice(['10', 'v5 + 1' if 'v5' in self.env else '2'])})")
+                else:
+                    B.append(f"{v} = Integer({r.choice([0, 1, 5])})")
+                    self.env[v] = "Integer"
             else:
                 e = self.expr("SecretInteger")
                 if e:
@@ -253,4 +261,14 @@ FIXED = [
     ("integer-literal", 'from nada_dsl import *\n\ndef nada_main():\n    p = Party(name="P")\n    a = SecretInteger(Input(name="a", party=p))\n    k = Integer(5)\n    b = a * k\n    return [Output(b, "o", p)]\n'),
     ("sum-of-empty", 'from nada_dsl import *\n\ndef nada_main():\n    p = Party(name="P")\n    a = SecretInteger(Input(name="a", party=p))\n    l: list[SecretInteger] = []\n    s = sum(l)\n    return [Output(a, "o", p)]\n'),
     ("if-else-secret-condition", 'from nada_dsl import *\n\ndef nada_main():\n    p = Party(name="P")\n    s = SecretInteger(Input(name="s", party=p))\n    u = PublicInteger(Input(name="u", party=p))\n    v = PublicInteger(Input(name="v", party=p))\n    r = (s < u).if_else(u, v)\n    return [Output(r, "o", p)]\n'),
+    # shapes found by reading strict.types against the abstract classes (second seeding round)
+    ("return-annotation-unchecked", 'from nada_dsl import *\n\ndef f(x: Integer) -> SecretInteger:\n    return x\n\ndef nada_main():\n    p = Party(name="P")\n    a = Integer(3)\n    s = SecretInteger(Input(name="s", party=p))\n    b = f(a)\n    return [Output(s, "o", p)]\n'),
+    ("nested-list-annotation", 'from nada_dsl import *\n\ndef nada_main():\n    p = Party(name="P")\n    s = SecretInteger(Input(name="s", party=p))\n    q: list[list[int]] = [[]]\n    r = q[0]\n    return [Output(s, "o", p)]\n'),
+    ("element-assignment-of-another-type", 'from nada_dsl import *\n\ndef nada_main():\n    p = Party(name="P")\n    a = Integer(3)\n    s = SecretInteger(Input(name="s", party=p))\n    l: list[Integer] = [a]\n    l[0] = s\n    y = l[0]\n    return [Output(s, "o", p)]\n'),
+    ("loop-carried-type", 'from nada_dsl import *\n\ndef nada_main():\n    p = Party(name="P")\n    x = Integer(3)\n    s = SecretInteger(Input(name="s", party=p))\n    for i in range(2):\n        y = x\n        x = x + s\n    return [Output(s, "o", p)]\n'),
+    ("empty-range-body", 'from nada_dsl import *\n\ndef nada_main():\n    p = Party(name="P")\n    s = SecretInteger(Input(name="s", party=p))\n    for i in range(0):\n        z = s + s\n    w = z\n    return [Output(s, "o", p)]\n'),
+    ("list-called-as-function", 'from nada_dsl import *\n\ndef nada_main():\n    p = Party(name="P")\n    a = Integer(3)\n    s = SecretInteger(Input(name="s", party=p))\n    l: list[Integer] = [a]\n    y = l()\n    return [Output(s, "o", p)]\n'),
+    ("sum-of-public-list", 'from nada_dsl import *\n\ndef nada_main():\n    p = Party(name="P")\n    u = PublicInteger(Input(name="u", party=p))\n    s = SecretInteger(Input(name="s", party=p))\n    l: list[PublicInteger] = []\n    for i in range(2):\n        l.append(u)\n    t = sum(l)\n    c = (t < u).if_else(u, u)\n    return [Output(s, "o", p)]\n'),
+    ("sum-of-literal-list", 'from nada_dsl import *\n\ndef nada_main():\n    p = Party(name="P")\n    s = SecretInteger(Input(name="s", party=p))\n    l = [Integer(1) for j in range(2)]\n    t = sum(l)\n    return [Output(s, "o", p)]\n'),
+    ("typed-constructor-of-int", 'from nada_dsl import *\n\ndef nada_main():\n    p = Party(name="P")\n    s = SecretInteger(Input(name="s", party=p))\n    n = 3\n    a = PublicInteger(10)\n    b = SecretInteger(n + 1)\n    return [Output(s, "o", p)]\n'),
 ]
